@@ -135,6 +135,16 @@ func (r *realiser) buildIface(path, key string, t reflect.Type) reflect.Value {
 		// narrowed but undecided: prefer a leaf the code did not single out
 		cands := strings.Split(c, ",")
 		pref := []string{"*go/ast.Ident", "*go/ast.BasicLit", "*go/ast.EmptyStmt", "*go/ast.ExprStmt"}
+		// the code ruled out a plain identifier: a parenthesised one types like the
+		// identifier would and is the likeliest well-typed stand-in ((T) for T)
+		hasIdent, hasParen := false, false
+		for _, x := range cands {
+			hasIdent = hasIdent || x == "*go/ast.Ident"
+			hasParen = hasParen || x == "*go/ast.ParenExpr"
+		}
+		if !hasIdent && hasParen {
+			pref = append([]string{"*go/ast.ParenExpr"}, pref...)
+		}
 		for _, p := range pref {
 			for _, x := range cands {
 				if x == p {
